@@ -30,6 +30,11 @@ def bv_axiom_ok(thm, ax):
     return "._native.bv_decide.ax_" in ax and ax.startswith(thm)
 
 
+def bv_axiom_any(thm, ax):
+    """a bv_decide certificate axiom of this project's own theorems (a tie theorem may rest on a C05 / C08 theorem proved with bv_decide)"""
+    return "._native.bv_decide.ax_" in ax and ax.startswith("Pybes3Verif.")
+
+
 def _digi():
     import pybes3.detectors.digi_id as d
     return d
